@@ -110,3 +110,25 @@ def delays(rng, frames, **over):
     p["cfg"]["max_delay"] = 8
     p["loss"] = rng.choice([0.0, 0.05])
     return p
+
+
+def drop3(rng, frames, **over):
+    """3-4 peers (rollback mode), one dies at a random frame; links have different latencies and
+    loss so that the survivors hold different amounts of its input at that moment (C10)."""
+    n = rng.choice([3, 3, 4])
+    p = general(rng, frames + 150, npeers=n, max_locals=1, window=over.pop("window", None) or rng.choice([1, 2, 4, 8, 8]),
+                **over)
+    p["cfg"]["timeout"] = rng.choice([600, 1000])
+    p["cfg"]["notify"] = 300
+    p["cfg"]["desync"] = 0
+    victim = rng.randrange(n)
+    p["kills"] = [{"p": victim, "at_frame": rng.randrange(10, frames)}]
+    p["tick_ms"] = [16] * n
+    p["jitter"] = rng.choice([0, 3, 8])
+    p["lat_lo"] = rng.choice([2, 10])
+    p["lat_hi"] = rng.choice([10, 40, 90])
+    p["loss"] = rng.choice([0.0, 0.05, 0.2])
+    p["p_pause"] = 0.0
+    p["settle_ms"] = p["cfg"]["timeout"] + 2500
+    p["max_ms"] = 90000
+    return p
